@@ -70,7 +70,9 @@ def run(tier='quick', seed=0):
                 mw = _miner(cs0, wallet, lp, relayed)
                 nonce = 0
                 found = None
-                while found is None and nonce < 5000:
+                # (after a retarget the target can be 4x harder: about one nonce in 1024 succeeds; the budget makes a miss
+                # practically impossible, so that "no block found" cannot be an accident of the harness)
+                while found is None and nonce < 60000:
                     mw.handle_request_scrypt_input_message(0, nonce)
                     summary, height, txs = mw.mining_args[0]
                     if summary.timestamp <= head.timestamp:
